@@ -9,7 +9,7 @@
    states (what they restore comes from the snapshot's history section).  PARTIAL: the async engine's
    continuations are covered by the correspondence only; child actors and systemId registrations are outside Snap.v
    (see C15); JSON validity, isolation and corrupt-stream rejection are runtime monitors. *)
-From XSM Require Import Model.Macro Model.Snap Proofs.SortP Proofs.OrderP Proofs.HistP Proofs.SnapP Proofs.LegalP Proofs.DescentP Proofs.InvariantP Proofs.PermP Proofs.SelectP Proofs.HistoryP Proofs.InvariantHP Proofs.PermHP.
+From XSM Require Import Model.Macro Model.Snap Proofs.SortP Proofs.OrderP Proofs.HistP Proofs.SnapP Proofs.LegalP Proofs.DescentP Proofs.InvariantP Proofs.PermP Proofs.SelectP Proofs.HistoryP Proofs.InvariantHP Proofs.PermHP Model.TreeLib Gen.GenGeom Proofs.SnapBridge.
 From Coq Require Import Permutation.
 
 (* a snapshot can always be restored on the machine that produced it *)
@@ -78,6 +78,46 @@ Theorem C12_unknown_state_rejected : forall m sn,
 Proof. exact restore_rejects_unknown. Qed.
 Print Assumptions C12_unknown_state_rejected.
 
+(* TIE T.  from_snapshot, sliced and re-translated from the current source on every build (Gen/GenGeom.v): how ONE listed state is
+   made active (`restore_add`: the statements of the loop body, with their parent-chain walk) is the model's "the state and all
+   its ancestors" ... *)
+Theorem C12_restore_step_is_the_source : forall m A x, wf m = true -> x < size m ->
+  restore_add m A x = fold_left (fun C' a => cadd a C') (anc_self m x) A.
+Proof. exact restore_add_bridge. Qed.
+Print Assumptions C12_restore_step_is_the_source.
+
+(* ... the loop over the stored configuration raises StateNotFoundError exactly when an id is unknown and otherwise builds the
+   model's restore_cfg ... *)
+Theorem C12_restore_cfg_is_the_source : forall m ids, wf m = true ->
+  restore_cfg_src m ids = if forallb (fun x => Nat.ltb x (size m)) ids then Some (restore_cfg m ids) else None.
+Proof. exact restore_cfg_bridge. Qed.
+Print Assumptions C12_restore_cfg_is_the_source.
+
+(* ... the history store it rebuilds answers every lookup like the model's (distinct parents, known ids: what a snapshot the
+   library wrote contains) ... *)
+Theorem C12_restore_history_is_the_source : forall m h p, NoDup (map fst h) -> hist_known m h = true ->
+  hist_get (restore_hist_src m h) p = hist_get (filter nonempty h) p.
+Proof. exact restore_hist_bridge. Qed.
+Print Assumptions C12_restore_history_is_the_source.
+
+(* ... so from_snapshot read through the translated pieces IS the model's restore: it fails on the same snapshots, and the
+   restored interpreter has the same active set (as a list), history lookups, context, status, output, empty queue, nothing armed *)
+Theorem C12_restore_is_the_source : forall m sn, wf m = true -> NoDup (map fst (sn_hist sn)) -> hist_known m (sn_hist sn) = true ->
+  match restore_src m sn, restore m sn with
+  | None, None => True
+  | Some a, Some b => s_cfg a = s_cfg b /\ (forall p, hist_get (s_hist a) p = hist_get (s_hist b) p) /\ s_ctx a = s_ctx b
+                      /\ s_status a = s_status b /\ s_output a = s_output b /\ s_queue a = s_queue b /\ s_pending a = s_pending b
+  | _, _ => False
+  end.
+Proof. exact restore_bridge. Qed.
+Print Assumptions C12_restore_is_the_source.
+
+(* get_persisted_snapshot: the five fields it writes of the interpreter's own state (status, deep-copied context, SORTED ids of the
+   active set, output, the history lists in stored order), as sliced from the source, are the model's persist *)
+Theorem C12_persist_is_the_source : forall m s, persist_by m s persist_fields = Some (persist m s).
+Proof. exact persist_bridge. Qed.
+Print Assumptions C12_persist_is_the_source.
+
 (* non-vacuity *)
 Definition n_ id par k ch ini d : node := Build_node id par k ch ini d [] [] [] None [] [] None None.
 Definition ex_m : machine := Build_machine
@@ -97,4 +137,8 @@ Example C12_ex :
   | Some r => s_cfg r = [0; 1; 2; 4; 5; 6] /\ s_hist r = s_hist s /\ persist ex_m r = persist ex_m s
   | None => False end
   /\ restore ex_m {| sn_status := Running; sn_ctx := []; sn_cfg := [0; 42]; sn_output := None; sn_hist := [] |} = None.
+Proof. vm_compute. auto. Qed.
+Example C12_source_restore_ex :
+  wf ex_m = true /\ restore_cfg_src ex_m [6; 4] = Some [6; 5; 1; 0; 4; 2] /\ restore_cfg_src ex_m [6; 42] = None
+  /\ restore_hist_src ex_m [(1, [2; 5; 4; 6]); (0, [])] = [(1, [2; 5; 4; 6])].
 Proof. vm_compute. auto. Qed.
